@@ -6,16 +6,18 @@ Payloads == {0, 1, 9, 76}
 (* what follows the descriptor belongs to the caller whatever it is: arbitrary bytes, or bytes that look like padding (zeros) *)
 Fills(p) == IF p = 0 THEN {"rand"} ELSE {"rand", "zero"}
 Times == {"zero", "typical", "max", "y1900"}
-Guids == {"pkcs7", "other"}
+Guids == {"pkcs7", "other", "zero", "ones"}    \* the type GUID is data: all-zero and all-ones are type GUIDs like any other
+(* what the process decoded before this descriptor: nothing, or the same bytes cut short inside the certificate body (an error) *)
+Priors(t, f) == IF t = "typical" /\ f = "rand" THEN {"none", "trunc"} ELSE {"none"}
 (* well-formed descriptors and certificates *)
-WfInit == \/ \E d \in DataLens, p \in Payloads, t \in Times, g \in Guids : \E f \in Fills(p) :
-               Start([kind |-> "desc", time |-> t, dwlen |-> 24 + d, rev |-> 512, ctype |-> 3825, guid |-> g, datalen |-> d, payload |-> p, pfill |-> f, avail |-> 16 + 24 + d + p])
-          \/ \E d \in DataLens, p \in Payloads, ct \in {2, 3824, 3825} : \E f \in Fills(p) :
-               Start([kind |-> "wincert", time |-> "-", dwlen |-> 8 + d, rev |-> 512, ctype |-> ct, guid |-> "-", datalen |-> d, payload |-> p, pfill |-> f, avail |-> 8 + d + p])
+WfInit == \/ \E d \in DataLens, p \in Payloads, t \in Times, g \in Guids : \E f \in Fills(p) : \E pr \in Priors(t, f) :
+               Start([kind |-> "desc", time |-> t, dwlen |-> 24 + d, rev |-> 512, ctype |-> 3825, guid |-> g, datalen |-> d, payload |-> p, pfill |-> f, avail |-> 16 + 24 + d + p, prior |-> pr])
+          \/ \E d \in DataLens, p \in Payloads, ct \in {2, 3824, 3825} : \E f \in Fills(p) : \E pr \in Priors("typical", f) :
+               Start([kind |-> "wincert", time |-> "-", dwlen |-> 8 + d, rev |-> 512, ctype |-> ct, guid |-> "-", datalen |-> d, payload |-> p, pfill |-> f, avail |-> 8 + d + p, prior |-> pr])
 (* malformed relations (C14 input space): length field vs bytes available, revision, certificate type *)
 BadInit == \E k \in {"desc", "wincert"}, dw \in {0, 7, 8, 9, 23, 24, 25, 40, 100, -1}, av \in {0, 1, 15, 16, 17, 23, 24, 39, 40, 41, 64},
               rv \in {512, 0, 256}, ct \in {3825, 2, 0} :
-             Start([kind |-> k, time |-> "typical", dwlen |-> dw, rev |-> rv, ctype |-> ct, guid |-> "pkcs7", datalen |-> 0, payload |-> 0, pfill |-> "rand", avail |-> av])
+             Start([kind |-> k, time |-> "typical", dwlen |-> dw, rev |-> rv, ctype |-> ct, guid |-> "pkcs7", datalen |-> 0, payload |-> 0, pfill |-> "rand", avail |-> av, prior |-> "none"])
 LiveWf == WfInit /\ [][Next]_vars /\ WF_vars(Next)
 LiveBad == BadInit /\ [][Next]_vars /\ WF_vars(Next)
 Emit == pc \in {"done", "fail"} =>
